@@ -3,9 +3,14 @@ Decided by ApiTrace at every new/insert/define/equate event: the dumped state af
 compared with the contract applied to the dumped state before it (fresh dense ids, the inserted
 tuple visible exactly once through iterator and point query, define returns the existing value or a
 fresh element, partition = closure of the previous partition and the equate call, nothing else
-changes), and root_/are_equal_ are checked for idempotence and mutual agreement at every event."""
+changes), and root_/are_equal_ are checked for idempotence and mutual agreement at every event.
+The union-find underneath (eqlog_runtime::Unification) is specified on its own (UnionFindOps.tla,
+UnionFind.tla: the transcribed parent forest with path halving refines the representative contract);
+every call sequence of that scope is replayed on the real type and validated by UFTrace (uflib)."""
 import histories
 import modelcheck
+import uflib
+import vlib
 
 PROP = "C05"
 SIZE = {"poset": 3, "semilattice": 3, "pend": 2, "diag": 3}
@@ -24,6 +29,14 @@ def make_plan(ths, tier, rnd):
 
 
 def run(tier, replay):
-    return modelcheck.run(PROP, tier, replay, make_plan,
+    if replay is not None and replay["replay"].get("kind") == "uf":
+        v = vlib.Verdict(PROP, tier, "model_checking")
+        res = uflib.replay(v, replay["replay"]["case"])
+        v.coverage = {"states": res["_states"], "transitions": res["_generated"], "traces_validated_against_impl": 1,
+                      "samples": [replay["replay"]["case"]]}
+        return v.finish()
+    return modelcheck.run(PROP, tier, replay, make_plan, extra=uflib.run,
                           explanation="seeded random interleavings of new_/insert_/define_/equate_ with closes; every mutator "
-                                      "event carries a full query burst (iterators, point queries over all ids, are_equal on all pairs)")
+                                      "event carries a full query burst (iterators, point queries over all ids, are_equal on all pairs); "
+                                      "extra: every Unification call sequence of UnionFind.tla's scope (3 elements, 5 calls; thorough 4/6) "
+                                      "and seeded random sequences on 12 elements replayed on the real type, validated by UFTrace")
